@@ -5,8 +5,10 @@ import (
 	"crypto/x509"
 	"errors"
 	"fmt"
+	"io/fs"
 	"os"
 	"path/filepath"
+	"syscall"
 	"time"
 
 	"github.com/notaryproject/notation-core-go/revocation"
@@ -72,6 +74,10 @@ type ScriptedStore struct {
 	Log   []StoreCall
 	// Gate, if set, is called at the start of every load (a lens may hold one caller there: see lens.concurrently)
 	Gate func()
+	// FailKind decides what a store listed in Fail answers with, in the real trust store's error classes: 0 an
+	// unreadable directory (an I/O error), 1 a directory that does not exist (wraps fs.ErrNotExist, as the error of
+	// the real Lstat does), 2 a directory without certificates (the real CertificateError, tagged fs.ErrNotExist)
+	FailKind int
 }
 
 func NewScriptedStore() *ScriptedStore {
@@ -90,12 +96,21 @@ func (s *ScriptedStore) GetCertificates(ctx context.Context, storeType truststor
 	d := rt.Point(rt.Op{Kind: "truststore.get", Aux: key})
 	if d.Err != nil || s.Fail[key] {
 		s.Log = append(s.Log, StoreCall{string(storeType), namedStore, true})
-		return nil, truststore.TrustStoreError{Msg: "simulated: the trust store cannot be loaded"}
+		if d.Err == nil {
+			path := "/config/truststore/x509/" + string(storeType) + "/" + namedStore
+			switch s.FailKind % 3 {
+			case 1:
+				return nil, truststore.TrustStoreError{InnerError: &fs.PathError{Op: "lstat", Path: path, Err: syscall.ENOENT}, Msg: fmt.Sprintf("simulated: the trust store %q of type %q does not exist", namedStore, storeType)}
+			case 2:
+				return nil, truststore.CertificateError{InnerError: fs.ErrNotExist, Msg: fmt.Sprintf("simulated: trust store %q has no x509 certificates", path)}
+			}
+		}
+		return nil, truststore.TrustStoreError{InnerError: &fs.PathError{Op: "open", Path: "/config/truststore", Err: syscall.EIO}, Msg: "simulated: the trust store cannot be loaded"}
 	}
 	s.Log = append(s.Log, StoreCall{string(storeType), namedStore, false})
 	certs, ok := s.Certs[key]
 	if !ok || len(certs) == 0 {
-		return nil, truststore.TrustStoreError{Msg: fmt.Sprintf("simulated: the trust store %q of type %q does not exist", namedStore, storeType)}
+		return nil, truststore.TrustStoreError{InnerError: &fs.PathError{Op: "lstat", Path: "/config/truststore/x509/" + key, Err: syscall.ENOENT}, Msg: fmt.Sprintf("simulated: the trust store %q of type %q does not exist", namedStore, storeType)}
 	}
 	return certs, nil
 }
